@@ -87,6 +87,13 @@ def run(ctx):
                           'cache counters: m_cached=%d m_cache=%d m_plain=%d (cfg %s seed %d)'
                           % (i1['m'], i1['m_cache'], i0['m'], (n, rho, r0, a, b, nswp), seed),
                           case={'cfg': [n, rho, r0, a, b, nswp], 'seed': seed})
+    # the cache-convergence stop at and around equality (m_cache_scale = 0 without a cache must never fire; small scales
+    # with a cache tie exactly for fixed-rank runs): exactness and transparency are judged by the trace specification
+    for k, (n, rho, r0, a, b, nswp) in enumerate(confs + [R.BASE_CONFIGS[-1]]):
+        seed = 300 + k + ctx.seed
+        trs.append(R.record(n, rho, r0, a, b, nswp, False, seed=seed, mcs=0)[0])
+        for mcs_ in (0, 1, 2, 5):
+            trs.append(R.record(n, rho, r0, a, b, max(nswp, 4) if b == 0 else nswp, True, seed=seed, mcs=mcs_)[0])
     # fault suites with validation data / preloaded dictionaries
     fs = R.BASE_CONFIGS[:2] if ctx.tier == 'quick' else R.BASE_CONFIGS
     for k, (n, rho, r0, a, b, nswp) in enumerate(fs):
